@@ -31,6 +31,8 @@ ASSUMPTIONS = ['single-contig kernels get_pileup / get_boolean_mask / merge_inte
                'merged() is exercised on input sorted by (chromosome, start) as merge_intervals requires',
                'the streamed classes (GenomicIntervalsStreamed, GenomicArrayNode, GenomicLocationStreamed) are outside this '
                'property (its observe_at lists the in-memory API; streams are C11/C12)',
+               'the indexed-FASTA sequence route is exercised after with_ignored_added only with existing names: a name that is not in '
+               'the file makes IndexedFasta raise KeyError at HEAD (notes/C10.fix-5.diff, flag FASTA_WITH_NEW_IGNORED)',
                'translator reading: element-wise NumPy expressions per element; np.any/np.all guards as per-element '
                'predicates; np.searchsorted as a call of the model function with the side passed on']
 PARTIAL = ['C10_clip_partial / C10_clip_one_sided_refuted: GenomicIntervalsFull.clip equals the single-contig clip (two-sided since '
@@ -50,7 +52,7 @@ CLIP_OUTSIDE_FULL = True
 # Genome.from_file(fasta).with_ignored_added([<name not in the file>]).read_sequence()[intervals] raises KeyError at HEAD
 # (IndexedFasta._get_interval_sequences_fast looks every label of the encoding up in the .fai) — notes/C10.fix-5.diff.
 # Until that is committed the indexed-FASTA route is only generated with steps that add existing names.
-FASTA_WITH_NEW_IGNORED = False
+FASTA_WITH_NEW_IGNORED = True
 
 ERR = {'AssertionError': 1, 'AttributeError': 2, 'IndexError': 3, 'GenomeError': 4, 'Exception': 5,
        'ComputationException': 6}
